@@ -1053,6 +1053,9 @@ pub enum NonceCase {
     /// seal `count` messages from 0 through the public API only; `from` > 0 means the run is one
     /// chunk of a longer run and the hook is used to jump to its start after validating the hook
     Run { suite: SuiteId, from: u64, count: u64 },
+    /// every VALUE 0..=255 of one byte of the 64-bit counter (the other bytes small): a nonce computation that goes wrong
+    /// for particular byte values (e.g. those that happen to equal a byte of the secret base nonce) shows here
+    ByteValues { suite: SuiteId, byte: u8 },
 }
 
 pub struct NonceFormula {
@@ -1069,7 +1072,7 @@ impl Part for NonceFormula {
         "for every start position in SEQ_STARTS (every bit and byte carry of the 64-bit counter, the first and last values) the counter is set with the hook and 3 messages are sealed (alternating APIs): every ciphertext must equal R1.Seal(key, base_nonce XOR I2OSP(pos, Nn), aad, pt), which observes the nonce without looking at internals; plus a consecutive run from 0 through the PUBLIC API only, compared message by message, which also validates the hook (a context advanced by n real seals and one set by verif_set_seq(n) report the same state and produce the same next ciphertext)".into()
     }
     fn bound(&self, _cfg: &Cfg) -> String {
-        format!("{} start positions x {} suites; consecutive run of {} seals per suite", seq_starts().len(), self.suites.len(), self.run_len)
+        format!("{} start positions x {} suites; every value 0..=255 of each of the 8 counter bytes; consecutive run of {} seals per suite", seq_starts().len(), self.suites.len(), self.run_len)
     }
     fn enumerate(&self, _cfg: &Cfg) -> Vec<NonceCase> {
         let mut v = vec![];
@@ -1078,6 +1081,9 @@ impl Part for NonceFormula {
                 v.push(NonceCase::At { suite, start });
             }
             v.push(NonceCase::Distinct { suite });
+            for byte in 0..8u8 {
+                v.push(NonceCase::ByteValues { suite, byte });
+            }
         }
         // the long run only for one (KEM,KDF) pair per AEAD: the sequence logic is generic in them
         let mut seen = std::collections::HashSet::new();
@@ -1118,6 +1124,51 @@ impl Part for NonceFormula {
                     run_seal(&mut out, &fx, s.as_mut(), pos, api, &format!("start {:#x} seal #{}", start, i));
                     pos = pos.and_then(succ);
                 }
+            }
+            NonceCase::ByteValues { suite, byte } => {
+                out.outcome = format!("byte-values/{}", suite.aead.name());
+                let fx = match Fixture::new(*suite, Mode::Base, cfg.seed) {
+                    Ok(f) => f,
+                    Err(e) => {
+                        out.fail(e);
+                        return out;
+                    }
+                };
+                let mut s = match fx.sender() {
+                    Ok(s) => s,
+                    Err(e) => {
+                        out.fail(e);
+                        return out;
+                    }
+                };
+                let mut seen: std::collections::HashMap<Vec<u8>, u64> = Default::default();
+                for low in [5u64, 0] {
+                    for v in 0..=255u64 {
+                        let p = (v << (8 * *byte as u32)) | if *byte == 0 { 0 } else { low };
+                        s.set_seq(p);
+                        out.transitions += 1;
+                        let want = fx.refctx.seal_at(p as u128, b"same aad", b"same plaintext at every position");
+                        match s.seal(b"same plaintext at every position", b"same aad") {
+                            Obs::Ok(ct) => {
+                                if ct != want {
+                                    out.fail(format!("seal at sequence number {:#x} (byte {} of the counter = {:#04x}) is not under base_nonce XOR I2OSP({:#x})", p, byte, v, p));
+                                    return out;
+                                }
+                                if let Some(q) = seen.insert(ct, p) {
+                                    if q != p {
+                                        out.fail(format!("nonce reuse: sequence numbers {:#x} and {:#x} give identical ciphertexts for identical inputs", q, p));
+                                        return out;
+                                    }
+                                }
+                            }
+                            o => {
+                                out.fail(format!("seal at {:#x}: {}", p, o.class()));
+                                return out;
+                            }
+                        }
+                    }
+                }
+                out.nontrivial = true;
             }
             NonceCase::Distinct { suite } => {
                 out.outcome = format!("distinct/{}", suite.aead.name());
